@@ -135,6 +135,24 @@ fn c01_measure() -> i32 {
             println!("value-level nesting {:5} ({} bytes): ok={} in {:?}", d, b.len(), r.is_ok(), t.elapsed());
             if let Ok(v) = r { let c = v.clone(); let _ = c == v; let _ = v.to_vec(); }
         }
+        // plain CBOR nesting (arrays / tags / maps) far beyond ciborium's recursion limit, through several entry points:
+        // must come back as an error, quickly, on this 2 MiB stack
+        for n in [255usize, 257, 100_000, 300_000] {
+            for (name, unit, tail) in [("array", vec![0x81u8], vec![0x00u8]), ("tag", vec![0xc1], vec![0x00]), ("map", vec![0xa1, 0x00], vec![0x00])] {
+                let mut b = Vec::with_capacity(n * unit.len() + 1);
+                for _ in 0..n { b.extend_from_slice(&unit); }
+                b.extend_from_slice(&tail);
+                let t = std::time::Instant::now();
+                let r1 = coset::CoseSign1::from_slice(&b).is_ok();
+                let r2 = coset::Header::from_slice(&b).is_ok();
+                let r3 = coset::CoseKey::from_slice(&b).is_ok();
+                let r4 = <coset::CoseSign1 as coset::TaggedCborSerializable>::from_tagged_slice(&b).is_ok();
+                let r5 = coset::cwt::ClaimsSet::from_slice(&b).is_ok();
+                let el = t.elapsed();
+                if n >= 100_000 || name != "array" { println!("plain {} nesting {:6}: accepted={} in {:?}", name, n, r1 || r2 || r3 || r4 || r5, el); }
+                if (n > 256 && (r1 || r2 || r3 || r4 || r5)) || el.as_secs() >= 4 { bad += 1; }
+            }
+        }
         bad
     }).unwrap();
     match h.join() { Ok(0) => 0, Ok(_) => { println!("MEASUREMENT-MISMATCH"); 1 } Err(_) => { println!("PANIC in decode thread"); 1 } }
